@@ -299,3 +299,29 @@ Definition to_int_chk (s : list Z) : res Z := do v <- strtol64_at (c_str s); Ok 
 Definition to_uint_chk (s : list Z) : res Z := do v <- strtoul64_at (c_str s); Ok (w32 v).
 Definition to_int64_chk (s : list Z) : res Z := strtol64_at (c_str s).
 Definition to_uint64_chk (s : list Z) : res Z := strtoul64_at (c_str s).
+
+(* ------------------------------------------------------------------------------------------ *)
+(* Strings that do not own their bytes (String::attach(p, n)): the C-string view                *)
+(* ------------------------------------------------------------------------------------------ *)
+
+(* The block the caller attached is window ++ tail: `tail` = whatever lies behind the window inside
+   the same allocation ([] = the allocation ends with the window).  String::operator const char*()
+   const (String.hpp:84-89) reads block[n] with n = length of the window; when that byte is not NUL
+   it detaches (heap copy of the window plus a terminator) and hands out the copy, otherwise the
+   block itself.  The read of block[n] is a checked read: with tail = [] it is out of bounds. *)
+Definition c_view (s tail : list Z) : res (list Z) :=
+  do t <- peek (s ++ tail) (length s);
+  if t =? 0 then Ok (s ++ tail) else Ok (c_str s).
+
+(* String::toInt() ... on an attached String: atoi and friends run on that view *)
+Definition to_int_att (s tail : list Z) : res Z := do b <- c_view s tail; do v <- strtol64_at b; Ok (sx32 v).
+Definition to_uint_att (s tail : list Z) : res Z := do b <- c_view s tail; do v <- strtoul64_at b; Ok (w32 v).
+Definition to_int64_att (s tail : list Z) : res Z := do b <- c_view s tail; strtol64_at b.
+Definition to_uint64_att (s tail : list Z) : res Z := do b <- c_view s tail; strtoul64_at b.
+
+(* Unicode::fromString(const String&) / isValid(const String&) AS FOUND: `fromString(str, str.length())`
+   converts str through the C-string view first, then runs the reader on the first n bytes of what the
+   view hands out (the window in both cases).  As repaired (fixes/C18/02) the String overloads pass the
+   window itself: from_string s / is_valid s, whatever the tail. *)
+Definition from_string_view (s tail : list Z) : res Z := do _ <- c_view s tail; from_string s.
+Definition is_valid_view (s tail : list Z) : res bool := do _ <- c_view s tail; is_valid s.
